@@ -84,6 +84,66 @@ func GenTables(repo, out string) error {
 		id, ok := e.(*ast.Ident)
 		return ok && id.Name == "nil"
 	}
+	// term renders a comparison for Lean (Model/C10Table.lean `Cmp`): operator, both sides as expressions over
+	// integer literals, `/ + -` and variables (the operands that are neither, numbered by the rank of their text
+	// among the operands of the comparison: `d < *dist` and `*dist > d` get the same numbering), and the shape
+	// as a fallback for sides that are not integer expressions.
+	term := func(be *ast.BinaryExpr) string {
+		var leaves []string
+		var collect func(e ast.Expr)
+		collect = func(e ast.Expr) {
+			switch x := e.(type) {
+			case *ast.BasicLit:
+			case *ast.ParenExpr:
+				collect(x.X)
+			case *ast.BinaryExpr:
+				if x.Op == token.QUO || x.Op == token.ADD || x.Op == token.SUB {
+					collect(x.X)
+					collect(x.Y)
+					return
+				}
+				leaves = append(leaves, show(x))
+			default:
+				leaves = append(leaves, show(e))
+			}
+		}
+		collect(be.X)
+		collect(be.Y)
+		sort.Strings(leaves)
+		rank := map[string]int{}
+		for _, l := range leaves {
+			if _, ok := rank[l]; !ok {
+				rank[l] = len(rank)
+			}
+		}
+		var ex func(e ast.Expr) string
+		ex = func(e ast.Expr) string {
+			switch x := e.(type) {
+			case *ast.BasicLit:
+				if x.Kind == token.INT {
+					return "(.lit " + x.Value + ")"
+				}
+				return fmt.Sprintf("(.opaque %q)", x.Value)
+			case *ast.ParenExpr:
+				return ex(x.X)
+			case *ast.BinaryExpr:
+				switch x.Op {
+				case token.QUO:
+					return "(.div " + ex(x.X) + " " + ex(x.Y) + ")"
+				case token.ADD:
+					return "(.add " + ex(x.X) + " " + ex(x.Y) + ")"
+				case token.SUB:
+					return "(.sub " + ex(x.X) + " " + ex(x.Y) + ")"
+				}
+			case *ast.SelectorExpr:
+				if x.Sel.Name == strings.ToUpper(x.Sel.Name) {
+					return fmt.Sprintf("(.opaque %q)", x.Sel.Name)
+				}
+			}
+			return fmt.Sprintf("(.var %d)", rank[show(e)])
+		}
+		return fmt.Sprintf("⟨%q, %s, %s, %q⟩", be.Op.String(), ex(be.X), ex(be.Y), shape(be))
+	}
 	type row struct {
 		name  string
 		items []string
@@ -119,7 +179,7 @@ func GenTables(repo, out string) error {
 				switch be.Op {
 				case token.LSS, token.LEQ, token.GTR, token.GEQ, token.EQL, token.NEQ:
 					if !isNil(be.X) && !isNil(be.Y) {
-						c.items = append(c.items, shape(be))
+						c.items = append(c.items, term(be))
 					}
 				}
 				return true
@@ -236,7 +296,7 @@ func GenTables(repo, out string) error {
 	b.WriteString("-- GENERATED by harness/c10/extract.go (vh gen-tables) from support/fbp.go, support/tbe.go, cmd/classical.go,\n-- cmd/booster.go, cmd/computesupport.go, cmd/root.go, tree/edge.go; do not edit\n")
 	b.WriteString("import Gotree.Model.C10Table\n\nnamespace Gotree.Gen.C10\nopen Gotree.C10\n\ndef facts : Facts := {\n  cmps := [\n")
 	for i, r := range cmps {
-		fmt.Fprintf(&b, "    (%q, %s)%s\n", r.name, q(r.items), map[bool]string{true: ",", false: ""}[i < len(cmps)-1])
+		fmt.Fprintf(&b, "    (%q, [%s])%s\n", r.name, strings.Join(r.items, ", "), map[bool]string{true: ",", false: ""}[i < len(cmps)-1])
 	}
 	b.WriteString("  ],\n  lits := [\n")
 	for i, r := range arith {
